@@ -574,8 +574,18 @@ BooksOK(s, w) ==
   /\ \A k \in mine : OID(s, w, k) \in u
   /\ \A k \in OutsOfAcct(s, w, a) : (OID(s, w, k) \in u /\ s.w[w].outs[k].st # "Unconfirmed") => k \in mine
   /\ SumF([t \in T |-> s.w[w].txs[t].cr], T) - SumF([t \in T |-> s.w[w].txs[t].db], T) = bal
+\* (Appendix B "Reserved means reserved by the wallet": a broadcast transaction that spends an output of the wallet
+\*  without the wallet having logged it as a sent transaction of its own - tx_lock_outputs was never called for it -
+\*  takes the wallet out of the scope of C04, as in the trace spec's PostDirty)
+UnloggedSpend(s, w) ==
+  \E sl \in (s.pool \cup Mined(s)) \cap DOMAIN s.body :
+     /\ \E k \in DOMAIN s.w[w].outs : OID(s, w, k) \in s.body[sl].ins
+     /\ ~\E t \in DOMAIN s.w[w].txs : s.w[w].txs[t].slate = sl /\ s.w[w].txs[t].ty \in {"TxSent", "TxSentCancelled"}
 Prop_Books ==
-  [][Stepped /\ Ev.ev = "refresh" /\ ~(\E i \in 1..Len(hist') : hist'[i].ev \in {"cancel", "fork", "diverge", "restore", "scan"}) =>
+  [][Stepped /\ Ev.ev = "refresh" /\ ~UnloggedSpend(st', Ev.w)
+       \* (... nor having reserved only AFTER the transaction was broadcast)
+       /\ ~(\E i, j \in 1..Len(hist') : i < j /\ hist'[i].ev = "post" /\ hist'[j].ev = "lock" /\ hist'[j].sl = hist'[i].sl)
+       /\ ~(\E i \in 1..Len(hist') : hist'[i].ev \in {"cancel", "fork", "diverge", "restore", "scan"}) =>
        ChkA(BooksOK(st', Ev.w), "BooksEqualChain")]_vars
 \* account isolation: a step with source account a changes no output of another account
 Prop_Isolation ==
